@@ -195,6 +195,20 @@ int main(int argc, char** argv)
                                      [&](mc::Report& rep) { chk.run_second(D, f, env, av, env, rep, idx); });
                         });
         }
+        // (3c) incremental declaration through kept group references after the parser has been used once
+        {
+            Decl G = decls[0];
+            G.items[1].group = "debug"; // toggle tog
+            G.items[3].group = "build"; // multi-option
+            std::vector<Decl> ds = { decls[0], G, decls[5], decls[11] };
+            for (auto& D : ds)
+                for (size_t k = 0; k < D.items.size(); k++)
+                    for_all_vectors(alpha, a.asan() ? 1 : 2, ctx, [&](const std::vector<std::string>& av) {
+                        long idx = ctx.next;
+                        ctx.each([&] { return chk.describe(D, av, {}); },
+                                 [&](mc::Report& rep) { chk.run_incremental(D, k, av, {}, rep, idx); });
+                    });
+        }
         // (4) thorough: one token deeper on the four richest declarations
         if (n_deep)
             for (size_t d = 0; d < 4; d++)
